@@ -46,8 +46,62 @@ def kinds_of(m):
     return isa.TABLE["vanilla"][m][1]
 
 
+def _threaded_assembly(ctx, case):
+    """One application thread per node is the normal threaded deployment: several threads assemble their own programs (literals in
+    register positions, array indices and slice bounds) at the same time; each gets what it gets when it assembles alone."""
+    import random
+    import sys
+    import threading
+    from netqasm.lang.parsing.text import parse_text_subroutine
+
+    def text_for(r):
+        lines = ["# NETQASM 1.0", "# APPID 0", "array 8 @0"]
+        for _ in range(r.randrange(4, 12)):
+            a, b, c = r.randrange(1, 200), r.randrange(1, 200), r.randrange(0, 6)
+            lines.append(r.choice([f"add R{r.randrange(4)} {a} {b}", f"store {a} @0[{c}]", f"sub R{r.randrange(4)} R{r.randrange(4)} {b}",
+                                   f"wait_all @0[{c}:{c + 2}]" if False else f"load R{r.randrange(4)} @0[{c}]", f"beq {a} {b} END", f"addm R1 {a} {b} {c + 2}"]))
+        lines.append("END:")
+        lines.append("ret_reg R0")
+        return "\n".join(lines) + "\n"
+    n, rounds = case["threads"], case["rounds"]
+    jobs = []
+    for t in range(n):
+        r = random.Random(case["seed"] * 17 + t)
+        texts = [text_for(r) for _ in range(rounds)]
+        jobs.append([(tx, [codec.describe_instr(i) for i in parse_text_subroutine(tx).instructions]) for tx in texts])
+    errors = []
+    barrier = threading.Barrier(n)
+
+    def worker(t):
+        barrier.wait()
+        for j, (tx, alone) in enumerate(jobs[t]):
+            try:
+                got = [codec.describe_instr(i) for i in parse_text_subroutine(tx).instructions]
+            except Exception as e:
+                errors.append(f"thread {t} program {j}: {type(e).__name__}: {str(e)[:100]}")
+                return
+            if got != alone:
+                k = next((i for i, (g, a) in enumerate(zip(got, alone)) if g != a), min(len(got), len(alone)))
+                errors.append(f"thread {t} program {j}: instruction {k} is {got[k] if k < len(got) else None}, assembled alone it is {alone[k] if k < len(alone) else None}")
+                return
+    old = sys.getswitchinterval()
+    sys.setswitchinterval(1e-6)
+    try:
+        ths = [threading.Thread(target=worker, args=(t,)) for t in range(n)]
+        [t.start() for t in ths]
+        [t.join(300) for t in ths]
+    finally:
+        sys.setswitchinterval(old)
+    ctx.count("programs_assembled_by_concurrent_threads", n * rounds)
+    if errors:
+        ctx.fail(case, "programs assembled concurrently by different threads differ from what each thread gets alone: " + errors[0])
+    ctx.case(case, True)
+
+
 def cases(ctx):
     rng = ctx.rng
+    if ctx.shard == 0:
+        yield {"kind": "threaded-assembly", "threads": 4, "rounds": ctx.n(150, 6000), "seed": rng.randrange(2**31)}
     for _ in range(ctx.n(3000, 300000)):
         seed_vals = [rng.choice([0, 1, 2, 3, 5, -1, 7, 11]) for _ in range(16)]
         st = ri.AppState(3)
@@ -229,6 +283,8 @@ def align(items, asm):
 
 def run_case(ctx, case):
     from netqasm.lang.parsing.text import assemble_subroutine, parse_text_subroutine
+    if case["kind"] == "threaded-assembly":
+        return _threaded_assembly(ctx, case)
     items = case["items"]
     src = [it for it in items if "m" in it]
     has_lit = any(ri.is_lit(x) or (isinstance(x, list) and any(ri.is_lit(y) for y in x if isinstance(y, list)))
@@ -256,6 +312,19 @@ def run_case(ctx, case):
                 # to have rewritten the caller's program)
                 kept = list(proto.commands)
                 ctx.count("ir_proto_reused_after_it_was_assembled")
+            free_r = [i for i in range(16) if f"R{i}" not in named_registers(items)]
+            if has_lit and len(free_r) >= 5 and (h // 17) % 2 == 0:
+                # the caller goes on writing the SAME proto after it was assembled once (appends to the list it handed over): the
+                # lowest register the first program left unnamed now holds a value of the program, and a literal of the longer
+                # program is added behind it
+                tail = [{"m": "set", "ops": [["R", free_r[0]], 100]}, {"m": "add", "ops": [["R", free_r[0]], ["R", free_r[0]], ["lit", 5]]}]
+                proto.commands.extend(gs.render_ir(tail, kinds_of).commands)
+                ctx.count("ir_proto_extended_in_place_and_assembled_again")
+                sub3 = assemble_subroutine(proto)
+                err3, _ = align(items + tail, [codec.describe_instr(i) for i in sub3.instructions])
+                if err3:
+                    ctx.fail(case, f"[ir] the proto was assembled, extended in place by two statements and assembled again: {err3}")
+                    return ctx.case(case, has_lit and has_label)
             if has_label and (h // 5) % 2 == 0:
                 # the caller reuses its command objects in a SECOND, longer program (two statements in front): assembling the first
                 # one must have left them as they were - every label of the second program resolves in the second program
